@@ -76,6 +76,11 @@ def main():
     emp = os.path.join(V, 'seeded', 'expected_misses.json')
     if os.path.exists(emp):
         expected_miss = json.load(open(emp))
+    # refactorings the checks are known to alarm on (documented limits, DESIGN §11): reported, not counted as regressions
+    eap = os.path.join(V, 'refactorings', 'expected_alarms.json')
+    if os.path.exists(eap):
+        for k, v in json.load(open(eap)).items():
+            expected_miss['refac:' + k] = v
     breaking = []   # (id, property, kind, spec)
     for e in json.load(open(os.path.join(V, 'selftest', 'index.json'))):
         if e['kind'] in ('patch', 'rpatch'):
@@ -166,7 +171,9 @@ def _one_property(arg):
         ks = keys_for(d, pid)
         if ks is None:
             out.append('  %-28s refactoring does not compile' % rid); continue
-        if ks:
+        if ks and ('refac:' + rid) in expected_miss:
+            out.append('  %-28s ALARM-EXPECTED %s' % (rid, sorted({k.split(':')[0] for k in ks})))
+        elif ks:
             out.append('  %-28s FALSE ALARM %s  <<<<<<<<' % (rid, ks)); bad += 1
     return out, bad
 
